@@ -492,6 +492,15 @@ class ContractMixin(CallMixin):
                             envr["result"] = result
                         c = self.with_env(st, envr, lambda a=a: self.cond(st, a))
                         st.pc.append(c)
+                        if st.rec and self.cur_binders(st):
+                            # inside a summarised loop the callee's postcondition is a fact about THIS iteration's result
+                            # (a function of the loop binders); the path condition of the iteration is dropped when the
+                            # loop is summarised, so the fact is kept as a closed axiom: for all binders, under the
+                            # iteration's local path condition
+                            g0 = t_and(*st.pc[st.ghost.get("__binder_pc__", len(st.pc)):-1])
+                            ax = z3.ForAll(list(self.cur_binders(st)), z3.Implies(g0, c))
+                            st.axioms.append(ax)
+                            st.ghost["__loop_axioms__"] = tuple(st.ghost.get("__loop_axioms__", ())) + (ax,)
                 if result is None:
                     if rty is not None and not isinstance(rty, TNone):
                         result = self.result_value(st, contract, rty, args, kw)
